@@ -28,8 +28,9 @@ Definition kf_code (c : config) (p : pool) (s : sub) : N :=
         (* 1: forwarded on a parachain node; the checks behind the shortcut still hold *)
         (if c_para c && late then 1%N else 0%N)
       else if negb (cl_entry s) then
-        (* 2: group wrapper that is not the group's first transaction; everything else holds *)
-        (if late && acc_early_but c p s ts fee ex then 2%N else 0%N)
+        (* a group wrapper that is not the group's first transaction: finding 2 is fixed
+           (mempool isGroupHead), an accepted one is a violation *)
+        0%N
       else if negb fee then
         (* 3: negative fee of a plain transaction under a zero minimum rate without tiered fee *)
         (match s_shape s with
@@ -48,6 +49,10 @@ Definition kf_code (c : config) (p : pool) (s : sub) : N :=
       else 0%N
   end.
 
+(** the measured facts respect the relations the theorems assume ([facts_consistent]) *)
+Definition msg_consistent (m : submission) : bool :=
+  match m with STx s => facts_consistent s | SNil => true end.
+
 Fixpoint check_steps_model (c : config) (pm : pool) (steps : list stepT) : bool :=
   match steps with
   | [] => true
@@ -55,7 +60,7 @@ Fixpoint check_steps_model (c : config) (pm : pool) (steps : list stepT) : bool 
       match pipeline c pm m with
       | (rm, pm') =>
           N.eqb rm reply && list_eqb N.eqb (ids_of pm') present && (pool_size pm' =? size)
-          && check_steps_model c pm' tl
+          && msg_consistent m && check_steps_model c pm' tl
       end
   end.
 
@@ -67,7 +72,8 @@ Fixpoint check_steps (c : config) (pm pi : pool) (steps : list stepT) : verdict 
   | (m, reply, present, size) :: tl =>
       match pipeline c pm m with
       | (rm, pm') =>
-          let agree := N.eqb rm reply && list_eqb N.eqb (ids_of pm') present && (pool_size pm' =? size) in
+          let agree := N.eqb rm reply && list_eqb N.eqb (ids_of pm') present && (pool_size pm' =? size)
+                       && msg_consistent m in
           let pi' := if N.eqb reply R_OK then match m with STx s => pi ++ [s_outer s] | SNil => pi end else pi in
           let spec := step_ok c pi m reply (ids_of pi) present && (size =? Z.of_nat (length present)) in
           if spec then
